@@ -137,12 +137,18 @@ func (x *Exec) card(dom *Term) *Term {
 func (x *Exec) mapLen(st *State, m *Term, mt *types.Map) *Term {
 	d := Select(x.mapDom(st, mt), m)
 	c := x.card(d)
-	st.Assume(BVCmp("bvult", c, bv62))
-	// cardinality zero <=> no key present (instance of the finite-set axiom for this domain)
+	// instances of the finite-set axioms (zz_card.go) for this domain; under a binder they are dropped
+	// (the axioms themselves, stated over the set, cover the instances the solver creates)
+	f1 := BVCmp("bvult", c, bv62)
+	// cardinality zero <=> no key present
 	ks := x.mapKeySort(mt)
 	q := x.freshBound("k", ks)
-	st.Assume(Eq(Eq(c, BVConstU(0, 64)), &Term{S: fmt.Sprintf("(forall ((%s %s)) (not (select %s %s)))", q.S, ks.String(), d.S, q.S), Sort: SBool}))
-	st.Assume(Implies(Eq(m, IntConstI(0)), Eq(c, BVConstU(0, 64))))
+	f2 := Eq(Eq(c, BVConstU(0, 64)), &Term{S: fmt.Sprintf("(forall ((%s %s)) (not (select %s %s)))", q.S, ks.String(), d.S, q.S), Sort: SBool})
+	f3 := Implies(Eq(m, IntConstI(0)), Eq(c, BVConstU(0, 64)))
+	for _, f := range []*Term{f1, f2, f3} {
+		st.Assume(f)
+		x.noteValid(f)
+	}
 	return c
 }
 
